@@ -354,7 +354,109 @@ def r11(ctx):
     ctx.floor(R, 1)
 
 
+def _err_blocks(fb):
+    """blocks in which an error value is produced for the caller: `?` (FromResidual::from_residual) or an `Err(..)` aggregate"""
+    out = set()
+    for bb, t in fb.calls(re.compile(r"FromResidual>::from_residual$|::from_residual$")):
+        out.add(bb)
+    for bb, i, s2 in fb.all_stmts():
+        r = s2["r"]
+        if i != "term" and r["k"] == "agg" and r.get("variant") in ("Err", "Break") :
+            out.add(bb)
+    return out
+
+
+def r12(ctx):
+    R = "C09-R12"
+    ctx.rule(R, "a multicast datagram reaches every current member: (a) MulticastGroups drops a group only when its member set is empty - every "
+                "removal of a group entry (retain verdict, swap_remove_index / remove on the group map) is decided by `is_empty` of that group's "
+                "members, never by whether the leaving socket was a member; (b) the fan-out in UdpSocket::send visits every address returned by "
+                "destination_addresses: a `for` loop over them is left only on exhaustion or with an error for the caller, a closure given to "
+                "try_for_each / try_fold builds no Err / Break of its own (it stops only by propagating a callee's error), and no truncating adaptor is applied")
+    GROUPS = "turmoil::net::udp::MulticastGroups::"
+    MEMBER_REMOVAL = re.compile(r"IndexSet::(swap_remove|shift_remove|remove|swap_take|shift_take|take)$|HashSet::(remove|take)$")
+    n = 0
+    for b in sorted(ctx.w.bodies.values(), key=lambda b: b.id):
+        if not b.id.startswith(GROUPS) or b.kind == "Closure":
+            continue
+        for fb in ctx.w.family(b.id):
+            for bb, t in fb.calls(re.compile(r"IndexMap::(retain|retain_mut|swap_remove|shift_remove|swap_remove_index|shift_remove_index|swap_remove_entry|shift_remove_entry|remove|pop|clear|drain|truncate)$|HashMap::(retain|remove|clear|drain)$")):
+                n += 1
+                op = t["f"].rsplit("::", 1)[1]
+                if op.startswith("retain"):
+                    cl = origin(fb, t["args"][1]) if len(t["args"]) > 1 else {"k": "?"}
+                    cid = cl["r"].get("def") if cl["k"] == "agg" else None
+                    cb = ctx.w.bodies.get(cid) if cid else None
+                    at = set()
+                    if cb:
+                        rets = [s2 for bbx, i, s2 in cb.all_stmts() if i != "term" and s2["p"]["l"] == 0 and not s2["p"].get("p")]
+                        for s2 in rets:
+                            for o in _ops(s2["r"]):
+                                at |= Slicer(ctx.w).atoms(cb, o)
+                        for bbx, t2 in cb.calls(re.compile(".")):
+                            if t2["d"]["l"] == 0:
+                                at.add("call:" + t2["f"])
+                                for a in t2["args"]:
+                                    at |= Slicer(ctx.w).atoms(cb, a)
+                    emp = any(a.startswith("call:") and a.endswith("::is_empty") or a.endswith("::len") for a in at)
+                    rem = sorted(a for a in at if a.startswith("call:") and MEMBER_REMOVAL.search(a[5:]))
+                    ok = bool(cb) and emp and not rem
+                    why = "verdict is the emptiness of the member set"
+                else:
+                    ok = False
+                    for sbb, te, fe, o in guards_on(fb, lambda o: True):
+                        at = Slicer(ctx.w, into_callees=2).atoms(fb, fb.term(sbb)["d"])
+                        if any(a.startswith("call:") and a.endswith("::is_empty") for a in at) and fb.dominated_by_any(bb, edges=te + fe):
+                            ok = True
+                    why = "removal is behind an emptiness test"
+                ctx.inst(R, f"group-drop:{b.id}:{op}#{nth({}, b.id + op)}", ok, t["s"], why if ok else
+                         f"`{b.id}` removes a multicast group entry ({op}) on a condition other than `its member set is empty`: when one member leaves (or its socket "
+                         "is dropped) the group is forgotten together with its other members, who silently stop receiving")
+    ctx.inst(R, "group-drop:found", n >= 2, "", f"{n} group removals analysed" if n >= 2 else "fewer than 2 group removals (leave, leave_all) found: re-derive")
+    # (b) fan-out
+    send = ctx.body(R, "turmoil::net::udp::UdpSocket::send")
+    if send:
+        fam = ctx.w.family(send.id)
+        src = [(fb, bb) for fb in fam for bb, t in fb.calls(re.compile(r"MulticastGroups::destination_addresses$"))]
+        ctx.inst(R, "fan-out:source", bool(src), send.span, "send enumerates the group's members with destination_addresses" if src else
+                 "UdpSocket::send no longer calls MulticastGroups::destination_addresses: re-derive the fan-out rule")
+        k = 0
+        for fb in fam:
+            eb = _err_blocks(fb)
+            for comp in sorted(loops(fb), key=lambda c: min(c)):
+                ex = loop_exits(fb, comp)
+                if not any(is_exhaustion_exit(fb, u) for u, v in ex):
+                    continue
+                k += 1
+                bad = [(u, v) for (u, v) in ex if not is_exhaustion_exit(fb, u) and
+                       any(fb.term(x)["k"] == "return" for x in fb.reachable(v, removed_blocks=eb))]
+                ctx.inst(R, f"fan-out:loop:{fb.id}#{k}", not bad, fb.term(min(comp)).get("s", fb.span), "left only on exhaustion or with an error" if not bad else
+                         f"the member loop of `{fb.id}` can be left early without an error (exit from bb{bad[0][0]} at {fb.term(bad[0][0]).get('s', '')}): "
+                         "members listed after that point never get the datagram while send_to returns Ok")
+            for bb, t in fb.calls(re.compile(r"Iterator::(try_for_each|try_fold|all|any|find|find_map|position)$")):
+                k += 1
+                opn = t["f"].rsplit("::", 1)[1]
+                cl = origin(fb, t["args"][-1])
+                cid = cl["r"].get("def") if cl["k"] == "agg" else None
+                cb = ctx.w.bodies.get(cid) if cid else None
+                own = sorted(_err_blocks(cb)) if cb else []
+                ok = opn in ("try_for_each", "try_fold") and cb is not None and not own
+                ctx.inst(R, f"fan-out:{opn}:{fb.id}#{k}", ok, t["s"], "the closure stops the fan-out only by propagating a callee's error" if ok else
+                         f"`{fb.id}` walks the members with `{opn}` whose closure can stop the walk itself"
+                         + (f" (builds Err / Break in bb{own[0]})" if own else "") + ": the remaining members never get the datagram")
+            tr = sorted({t["f"].rsplit("::", 1)[1] for bb, t in fb.calls(TRUNCATING)})
+            if tr:
+                ctx.bad(R, f"fan-out:truncated:{fb.id}", fb.span, f"`{fb.id}` truncates an iteration with {tr}")
+        ctx.inst(R, "fan-out:found", k >= 1, send.span, f"{k} member walks analysed" if k >= 1 else "no walk over the members found in UdpSocket::send: re-derive")
+    ctx.floor(R, 6)
+
+
+def _ops(r):
+    return [o for o in [r.get("o"), r.get("a"), r.get("b")] + list(r.get("ops", [])) if isinstance(o, dict)]
+
+
 def run(ctx):
+    r12(ctx)
     r11(ctx)
     r10(ctx)
     scan_rule(ctx, "C09")
